@@ -722,12 +722,6 @@ Proof.
     + rewrite (ef_new _ _ F c HC). reflexivity.
     + exact (ef_ws _ _ F).
     + apply (ef_id_lt st e _ F). unfold event_ids. apply in_or_app; left. apply in_map; exact HC.
-  - intros u HU. rewrite <- (I (e_ws e) (u_id u)).
-    + destruct (ef_upd _ _ F u HU) as [o [r [Hl [Hb He]]]]. rewrite Hl.
-      unfold eff_origin in He. destruct (rec_empty (u_origin u)) eqn:EE; [reflexivity|].
-      cbn [orb]. inversion He; subst o. apply orec_eqb_refl.
-    + exact (ef_ws _ _ F).
-    + apply (ef_id_lt st e _ F). unfold event_ids. apply in_or_app; right. apply in_map; exact HU.
 Qed.
 
 Lemma satisfies_model_trace_from ops qs : forall st last hr,
@@ -740,7 +734,7 @@ Proof.
   - cbn in V. apply andb_true_iff in V as [V1 V2]. cbn [model_trace].
     pose proof (valid_event_facts st e V1) as F.
     rewrite (apply_valid Hmask Hbits st e F) in *. cbn [fst snd] in *. cbn [satisfies_from].
-    rewrite N.eqb_refl, (valid_in_domain st hr e I V1).
+    rewrite N.eqb_refl, (valid_in_domain st hr e I V1). cbn [satisfies_from tl].
     assert (spec_ok (put_all st (e_ws e) (ev_items st e)) (e :: hr)) as I'.
     { pose proof (step_spec Hmask Hbits st hr e I V1) as S. rewrite (apply_valid Hmask Hbits st e F) in S. exact S. }
     rewrite (satisfies_obs_all _ _ _ _ I' B).
